@@ -434,7 +434,19 @@ fn nontrivial(ops: &[Op]) -> bool {
 pub fn replay(args: &[String]) {
     let path = &args[0];
     let tier = arg_value(args, "--tier").unwrap_or_else(|| "quick".into());
-    let max_tick = arg_u64(args, "--max-tick", 5);
+    let mut max_tick = arg_u64(args, "--max-tick", 5);
+    // the embeddings are tables over ticks: cover every time that occurs in the file
+    for_each_line(path, |_, v| {
+        if let Some(ops) = v.as_array() {
+            for e in ops {
+                for k in ["t", "time"] {
+                    if let Some(t) = e[k].as_u64() {
+                        max_tick = max_tick.max(t + 1);
+                    }
+                }
+            }
+        }
+    });
     let stride = arg_u64(args, "--cfg-stride", 1) as usize; // replay each behaviour under every stride-th config
     let cfgs = grid(&tier, max_tick);
     let mut s = Summary::default();
